@@ -181,6 +181,7 @@ func (st *Stream) produceKVs(ctx context.Context, threadId int) error {
 		txn = st.db.NewTransaction(false)
 	}
 	defer txn.Discard()
+	y.VerifPoint("stream.txn")
 
 	// produceKVs is running iterate serially. So, we can define the outList here.
 	outList := z.NewBuffer(2*batchSize, "Stream.ProduceKVs")
@@ -191,6 +192,7 @@ func (st *Stream) produceKVs(ctx context.Context, threadId int) error {
 	}()
 
 	iterate := func(kr keyRange) error {
+		y.VerifPoint("stream.range")
 		iterOpts := DefaultIteratorOptions
 		iterOpts.AllVersions = true
 		iterOpts.Prefix = st.Prefix
